@@ -1183,6 +1183,13 @@ pub fn run(args: &Args) {
     if let Some(p) = &args.replay {
         let v: Value = serde_json::from_str(&std::fs::read_to_string(p).unwrap()).unwrap();
         let case = &v["case"];
+        if case["kind"] == "c13-files" {
+            let g = |k: &str| -> [bool; 3] { [case[k][0].as_bool().unwrap(), case[k][1].as_bool().unwrap(), case[k][2].as_bool().unwrap()] };
+            file_route_case(&mut sink, args, case["use_path"].as_bool().unwrap(), g("char_def_in"), g("unk_def_in"), case["text"].as_str().unwrap(), "replay", true);
+            cleanup(args);
+            sink.finish();
+            return;
+        }
         if case["kind"] == "c13-length-probe" {
             length_probe(&mut sink, args);
             cleanup(args);
@@ -1306,9 +1313,158 @@ pub fn run(args: &Args) {
             }
         }
     }
+    file_route_stream(&mut sink, &mut rng, args);
     normalized_forms_stream(&mut sink, &mut rng, args);
     cleanup(args);
     sink.finish();
+}
+
+// ------------------------------------------------------------------------------------------------ settings-file route
+// The configurations above are built in memory (ConfigBuilder::from_bytes + from_cfg_storage) with `path` naming the one
+// directory that holds char.def / unk.def.  Applications use the file route: Config::new(settings file, resource directory,
+// None) + JapaneseDictionary::from_cfg.  Relative file names (characterDefinitionFile, charDef, unkDef of the MeCab provider)
+// are then looked up -- ConfigBuilder::build / Config::complete_path, unchanged tree -- in this order, the first directory
+// that HAS the file wins:
+//     1. `path` of the settings (when given)
+//     2. the resource directory (the explicit argument, else resourcePath of the settings, else the default one)
+//     3. the directory of the settings file
+//     4. the current directory
+// Different char.def / unk.def files of the same names are put into the three directories (each present or absent); the OOV
+// candidates must be those of the files the order selects.
+
+/// per directory (0 = `path`, 1 = resource directory, 2 = directory of the settings file): ALPHA (group, length) of its
+/// char.def and the cost of the ALPHA line of its unk.def
+const FILE_DEFS: [(bool, u32, i16); 3] = [(true, 0, 1000), (false, 3, 1001), (false, 1, 1002)];
+const DIR_NAMES: [&str; 3] = ["`path` of the settings", "the resource directory", "the directory of the settings file"];
+
+fn file_route_case(sink: &mut Sink, args: &Args, use_path: bool, char_in: [bool; 3], unk_in: [bool; 3], text: &str, tag: &str, verbose: bool) {
+    let desc = json!({"kind": "c13-files", "use_path": use_path, "char_def_in": char_in, "unk_def_in": unk_in, "text": text, "tag": tag});
+    let id = sink.case_rust_only(desc, true);
+    sink.tag("file_route");
+    let root = args.work.join(format!("c13res-{}", std::process::id())).join("files");
+    let _ = std::fs::remove_dir_all(&root);
+    let dirs: Vec<PathBuf> = ["path", "resource", "settings"].iter().map(|d| root.join(d)).collect();
+    for (k, d) in dirs.iter().enumerate() {
+        std::fs::create_dir_all(d).unwrap();
+        let (g, l, cost) = FILE_DEFS[k];
+        if char_in[k] {
+            std::fs::write(d.join("char.def"), format!("# char.def of {}\nDEFAULT 0 1 0\nKANJI 0 1 0\nALPHA 1 {} {}\n0x0061..0x007A ALPHA\n0x4E00..0x9FA5 KANJI\n", DIR_NAMES[k], g as u8, l)).unwrap();
+        }
+        if unk_in[k] {
+            std::fs::write(d.join("unk.def"), format!("DEFAULT,0,0,5000,名詞,普通名詞,一般,*,*,*\nKANJI,0,0,5000,名詞,普通名詞,一般,*,*,*\nALPHA,0,0,{},名詞,普通名詞,一般,*,*,*\n", cost)).unwrap();
+        }
+    }
+    // the order stated above; what it selects
+    let order: Vec<usize> = if use_path { vec![0, 1, 2] } else { vec![1, 2] };
+    let sel = |present: &[bool; 3]| order.iter().copied().find(|k| present[*k]);
+    let (csel, usel) = match (sel(&char_in), sel(&unk_in)) {
+        (Some(c), Some(u)) => (c, u),
+        _ => return, // a file that is nowhere: not a case
+    };
+    let mut b = DictBuilder::new_system();
+    b.read_conn("1 1\n0 0 0\n".as_bytes()).unwrap();
+    b.read_lexicon("京都,0,0,100,京都,名詞,普通名詞,一般,*,*,*,キョウト,京都,*,A,*,*,*,*\n".as_bytes()).unwrap();
+    b.resolve().unwrap();
+    let mut bytes = Vec::new();
+    b.compile(&mut bytes).unwrap();
+    std::fs::write(root.join("system.dic"), &bytes).unwrap();
+    let mut cj = json!({"systemDict": root.join("system.dic").to_string_lossy(), "characterDefinitionFile": "char.def",
+        "oovProviderPlugin": [{"class": "com.worksap.nlp.sudachi.MeCabOovPlugin", "charDef": "char.def", "unkDef": "unk.def"},
+                              {"class": "com.worksap.nlp.sudachi.SimpleOovPlugin", "oovPOS": POS_POOL[0], "leftId": 0, "rightId": 0, "cost": 30000}]});
+    if use_path {
+        cj["path"] = json!(dirs[0].to_string_lossy());
+    }
+    let cfgfile = dirs[2].join("sudachi.json");
+    std::fs::write(&cfgfile, serde_json::to_string_pretty(&cj).unwrap()).unwrap();
+    let loaded = catch(|| -> Result<JapaneseDictionary, String> {
+        let cfg = sudachi::config::Config::new(Some(cfgfile.clone()), Some(dirs[1].clone()), None).map_err(|e| format!("{:?}", e))?;
+        JapaneseDictionary::from_cfg(&cfg).map_err(|e| format!("{:?}", e))
+    });
+    let dict = match loaded {
+        Ok(Ok(d)) => d,
+        other => {
+            sink.fail(id, &format!("settings file + resource directory (char.def in {:?}, unk.def in {:?}): the dictionary does not load: {}", char_in, unk_in, match other { Ok(Err(e)) => e, Err(p) => format!("panic: {}", p), Ok(Ok(_)) => String::new() }), "");
+            return;
+        }
+    };
+    // candidates of the MeCab provider at the first ALPHA character
+    let chars: Vec<char> = text.chars().collect();
+    let off = match chars.iter().position(|c| c.is_ascii_lowercase()) {
+        Some(o) => o,
+        None => return,
+    };
+    let run = chars[off..].iter().take_while(|c| c.is_ascii_lowercase()).count();
+    let mut buf = InputBuffer::from(text);
+    buf.build(dict.grammar()).unwrap();
+    let mut result: Vec<Node> = vec![];
+    let r = catch(|| dict.oov_provider_plugins()[0].provide_oov(&buf, off, CreatedWords::empty(), &mut result).map_err(|e| format!("{:?}", e)));
+    let mut got: Vec<(usize, i16)> = result.iter().map(|n| (n.end(), n.cost())).collect();
+    got.sort();
+    let (g, l, _) = FILE_DEFS[csel];
+    let cost = FILE_DEFS[usel].2;
+    let mut want: Vec<(usize, i16)> = vec![];
+    if g {
+        want.push((off + run, cost));
+    }
+    for k in 1..=usize::min(l as usize, if g { run - 1 } else { run }) {
+        want.push((off + k, cost));
+    }
+    want.sort();
+    if verbose {
+        println!("char.def present in [path, resource, settings] = {:?}, unk.def {:?}, `path` given: {}", char_in, unk_in, use_path);
+        println!("order selects char.def of {} and unk.def of {}", DIR_NAMES[csel], DIR_NAMES[usel]);
+        println!("text {:?}, candidates (end, cost) at offset {}: {:?} ({:?}); prescribed by the selected files: {:?}", text, off, got, r, want);
+    }
+    if r.is_err() || got != want {
+        let which = |v: &Vec<(usize, i16)>| -> String {
+            (0..3).filter(|k| {
+                let (g2, l2, c2) = FILE_DEFS[*k];
+                let mut w: Vec<(usize, i16)> = vec![];
+                if g2 { w.push((off + run, 0)); }
+                for j in 1..=usize::min(l2 as usize, if g2 { run - 1 } else { run }) { w.push((off + j, 0)); }
+                w.sort();
+                let _ = c2;
+                v.iter().map(|x| (x.0, 0i16)).collect::<Vec<_>>() == w
+            }).map(|k| DIR_NAMES[k]).collect::<Vec<_>>().join(" / ")
+        };
+        sink.fail(
+            id,
+            &format!(
+                "settings file in one directory, explicit resource directory another{}; char.def present in [path, resource, settings] = {:?}, unk.def {:?}: text {:?}, OOV candidates (end, cost) at offset {} are {:?} (ends as in the char.def of: {}); the lookup order (path, resource directory, settings-file directory) selects char.def of {} and unk.def of {}: {:?}",
+                if use_path { ", `path` a third" } else { "" }, char_in, unk_in, text, off, got, which(&got), DIR_NAMES[csel], DIR_NAMES[usel], want
+            ),
+            "",
+        );
+    }
+}
+
+fn file_route_stream(sink: &mut Sink, rng: &mut Rng, args: &Args) {
+    // directed: both directories have both files (no `path`); all three; only beside the settings file; split
+    for (use_path, c, u) in [
+        (false, [false, true, true], [false, true, true]),
+        (true, [true, true, true], [true, true, true]),
+        (false, [false, false, true], [false, false, true]),
+        (false, [false, false, true], [false, true, true]),
+        (true, [false, true, true], [true, false, true]),
+        (true, [false, false, true], [false, true, false]),
+    ] {
+        for text in ["京都abc", "abc"] {
+            file_route_case(sink, args, use_path, c, u, text, "directed", false);
+        }
+    }
+    for _ in 0..args.n(40, 600) {
+        let use_path = rng.chance(1, 2);
+        let mut c = [use_path && rng.chance(1, 2), rng.chance(2, 3), rng.chance(2, 3)];
+        let mut u = [use_path && rng.chance(1, 2), rng.chance(2, 3), rng.chance(2, 3)];
+        if !c.iter().any(|x| *x) {
+            c[2] = true;
+        }
+        if !u.iter().any(|x| *x) {
+            u[1] = true;
+        }
+        let text = *rng.pick(&["京都abc", "abc", "ab京都", "京都a", "abcde京"]);
+        file_route_case(sink, args, use_path, c, u, text, "generated", false);
+    }
 }
 
 /// one case of the "segments" stream (see SEGMENTS)
